@@ -6,6 +6,7 @@ import (
 	"errors"
 	"sync"
 	"sync/atomic"
+	"time"
 
 	"github.com/NethermindEth/juno/db"
 	"github.com/NethermindEth/juno/db/memory"
@@ -43,11 +44,49 @@ type faultStore struct {
 	// commit kinds for the histogram
 	kinds map[string]int
 	// reads counts Get calls; readHook (if set) is called with the running number, outside any lock
-	reads    atomic.Int64
-	readHook func(n int64)
+	reads        atomic.Int64
+	lastActivity atomic.Int64
+	readHook     func(n int64)
+}
+
+// touch records store activity (used to tell a hung migration from a slow one).
+func (s *faultStore) touch() { s.lastActivity.Store(time.Now().UnixNano()) }
+
+func (s *faultStore) Has(key []byte) (bool, error) {
+	s.touch()
+	return s.Database.Has(key)
+}
+
+func (s *faultStore) NewIterator(prefix []byte, withUpperBound bool) (db.Iterator, error) {
+	s.touch()
+	return s.Database.NewIterator(prefix, withUpperBound)
+}
+
+// runWatched runs f and waits for it. It reports false ("hung") when f has not returned and the
+// store has seen no read, iterator or commit attempt for `quiet` (goroutines parked for good), or
+// after `max` in any case. A slow machine keeps touching the store, so it is not taken for a hang.
+func (s *faultStore) runWatched(quiet, max time.Duration, f func()) bool {
+	done := make(chan struct{})
+	s.touch()
+	go func() { defer close(done); f() }()
+	start := time.Now()
+	tick := time.NewTicker(25 * time.Millisecond)
+	defer tick.Stop()
+	for {
+		select {
+		case <-done:
+			return true
+		case <-tick.C:
+			idle := time.Duration(time.Now().UnixNano() - s.lastActivity.Load())
+			if idle > quiet || time.Since(start) > max {
+				return false
+			}
+		}
+	}
 }
 
 func (s *faultStore) Get(key []byte, cb func([]byte) error) error {
+	s.touch()
 	n := s.reads.Add(1)
 	if s.readHook != nil {
 		s.readHook(n)
@@ -64,6 +103,8 @@ func newFaultStore(d *memory.Database) *faultStore {
 
 // commit runs one atomic write under the commit lock and then the hook.
 func (s *faultStore) commit(kind string, f func() error) error {
+	s.touch()
+	defer s.touch()
 	s.mu.Lock()
 	defer s.mu.Unlock()
 	if s.dead {
